@@ -8,7 +8,7 @@ V=$(pwd)
 ids=${@:-$(ls seeded | grep '^C')}
 if [ -n "$(git -C $R status --porcelain)" ]; then echo "$R is not clean"; exit 2; fi
 for id in $ids; do
-  for pd in seeded/$id/patch.diff seeded/$id/b/patch.diff; do
+  for pd in seeded/$id/patch.diff seeded/$id/[b-z]/patch.diff; do
     [ -f $pd ] || continue
     if ! git -C $R apply --check $V/$pd 2>/dev/null; then echo "SEEDED $pd: DOES-NOT-APPLY"; continue; fi
     git -C $R apply $V/$pd
